@@ -706,6 +706,12 @@ class ParserField:
                 if dep in alias_map:
                     dep = alias_map[dep]
                 if dep not in fields:
+                    # fields are keyed by their (case-folded) output name: find the attribute name
+                    for key, dep_field in fields.items():
+                        if dep_field.attname == dep:
+                            dep = key
+                            break
+                if dep not in fields:
                     # continue
                     # if dependencies is generated from unbound, it is considered inaccurate
                     if not self.property:
@@ -719,8 +725,9 @@ class ParserField:
                     # if no getter function
                     # dependant will not affect
                     field.add_dependant(self.name)
-                if dep not in dependencies:
-                    dependencies.append(dep)
+                if field.name not in dependencies:
+                    # parse results are keyed by field.name, not by the key of the fields map
+                    dependencies.append(field.name)
                 if field.attname not in attr_dependencies:
                     attr_dependencies.append(field.attname)
             self.dependencies = set(dependencies)
